@@ -2,6 +2,6 @@ SPECIFICATION Spec
 CONSTANTS
   MaxN = 3
   Bursts = {1, 2, 3}
-  Protos = {"T2", "T4"}
+  Protos = {"T2", "T3", "T4"}
   NRetries = {1}
   Buggy = FALSE
